@@ -1,6 +1,7 @@
 package main
 
 import (
+	"go/token"
 	"go/types"
 	"sort"
 	"strings"
@@ -205,7 +206,7 @@ func (m *ModSets) staticCallees(call *ssa.CallCommon) (fns []*ssa.Function, lib 
 		}
 		return nil, true
 	case *ssa.MakeClosure:
-		return []*ssa.Function{v.Fn.(*ssa.Function)}, false
+		return []*ssa.Function{unwrapMethodValue(v.Fn.(*ssa.Function))}, false
 	case *ssa.Builtin:
 		return nil, false
 	}
@@ -214,8 +215,144 @@ func (m *ModSets) staticCallees(call *ssa.CallCommon) (fns []*ssa.Function, lib 
 		// the effects are those of the function the caller passes: accounted for at the call sites (paramCallees)
 		return nil, false
 	}
+	// where does the function value come from? (results of module functions, phis, stores into the struct field it is
+	// read from; a function value handed out by a library function - context.WithTimeout's cancel - is library code)
+	if fns, lib, ok := m.resolveFuncValue(call.Value, 0, map[ssa.Value]bool{}); ok {
+		return fns, lib
+	}
 	sig := call.Value.Type().Underlying().(*types.Signature)
 	return m.addrTaken[sigKey(sig)], true
+}
+
+// resolveFuncValue follows a function value back to the functions it can denote. ok is false when some source cannot
+// be followed (parameters, free variables, map / slice elements, interfaces): the caller then falls back to every
+// address-taken function of the signature.
+func (m *ModSets) resolveFuncValue(v ssa.Value, depth int, seen map[ssa.Value]bool) (fns []*ssa.Function, lib bool, ok bool) {
+	if depth > 4 {
+		return nil, false, false
+	}
+	if seen[v] {
+		return nil, false, true
+	}
+	seen[v] = true
+	switch x := v.(type) {
+	case *ssa.Function:
+		if inModule(x) && len(x.Blocks) > 0 {
+			return []*ssa.Function{unwrapMethodValue(x)}, false, true
+		}
+		return nil, true, true
+	case *ssa.MakeClosure:
+		return []*ssa.Function{unwrapMethodValue(x.Fn.(*ssa.Function))}, false, true
+	case *ssa.Const:
+		return nil, false, true // nil function value: calling it panics, it has no effects
+	case *ssa.ChangeType:
+		return m.resolveFuncValue(x.X, depth, seen)
+	case *ssa.Phi:
+		for _, e := range x.Edges {
+			f, l, k := m.resolveFuncValue(e, depth, seen)
+			if !k {
+				return nil, false, false
+			}
+			fns = append(fns, f...)
+			lib = lib || l
+		}
+		return fns, lib, true
+	case *ssa.Extract:
+		if c, isCall := x.Tuple.(*ssa.Call); isCall {
+			return m.resolveCallResult(c, x.Index, depth, seen)
+		}
+	case *ssa.Call:
+		return m.resolveCallResult(x, 0, depth, seen)
+	case *ssa.UnOp:
+		if fa, isField := x.X.(*ssa.FieldAddr); isField && x.Op == token.MUL {
+			return m.resolveFieldFuncs(fa, depth, seen)
+		}
+	}
+	return nil, false, false
+}
+
+func (m *ModSets) resolveCallResult(c *ssa.Call, idx, depth int, seen map[ssa.Value]bool) (fns []*ssa.Function, lib bool, ok bool) {
+	if c.Call.IsInvoke() {
+		return nil, false, false
+	}
+	callee, isFn := c.Call.Value.(*ssa.Function)
+	if !isFn {
+		return nil, false, false
+	}
+	if !inModule(callee) || len(callee.Blocks) == 0 {
+		return nil, true, true
+	}
+	for _, b := range callee.Blocks {
+		for _, in := range b.Instrs {
+			r, isRet := in.(*ssa.Return)
+			if !isRet || idx >= len(r.Results) {
+				continue
+			}
+			f, l, k := m.resolveFuncValue(r.Results[idx], depth+1, seen)
+			if !k {
+				return nil, false, false
+			}
+			fns = append(fns, f...)
+			lib = lib || l
+		}
+	}
+	return fns, lib, true
+}
+
+// resolveFieldFuncs: every value stored into that field of that struct type anywhere in the module (field-based, flow-
+// insensitive). Only for fields of module struct types whose address is never taken other than for loads and stores.
+func (m *ModSets) resolveFieldFuncs(fa *ssa.FieldAddr, depth int, seen map[ssa.Value]bool) (fns []*ssa.Function, lib bool, ok bool) {
+	st := deref(fa.X.Type())
+	named, isNamed := types.Unalias(st).(*types.Named)
+	if !isNamed || named.Obj().Pkg() == nil || !isModPath(named.Obj().Pkg().Path()) {
+		return nil, false, false
+	}
+	stores := 0
+	for _, fn := range m.w.AllFn {
+		for _, b := range fn.Blocks {
+			for _, in := range b.Instrs {
+				fa2, isFA := in.(*ssa.FieldAddr)
+				if !isFA || fa2.Field != fa.Field || !types.Identical(deref(fa2.X.Type()), st) || fa2.Referrers() == nil {
+					continue
+				}
+				for _, r := range *fa2.Referrers() {
+					switch u := r.(type) {
+					case *ssa.Store:
+						if u.Addr != fa2 {
+							return nil, false, false // the field's address is stored somewhere
+						}
+						stores++
+						f, l, k := m.resolveFuncValue(u.Val, depth+1, seen)
+						if !k {
+							return nil, false, false
+						}
+						fns = append(fns, f...)
+						lib = lib || l
+					case *ssa.UnOp, *ssa.DebugRef:
+					default:
+						return nil, false, false
+					}
+				}
+			}
+		}
+	}
+	if stores == 0 {
+		return nil, false, false
+	}
+	return fns, lib, true
+}
+
+// fromLibraryCall: the value is a result of a call to a function outside the module.
+func fromLibraryCall(v ssa.Value) bool {
+	if ex, ok := v.(*ssa.Extract); ok {
+		v = ex.Tuple
+	}
+	c, ok := v.(*ssa.Call)
+	if !ok || c.Call.IsInvoke() {
+		return false
+	}
+	f, ok := c.Call.Value.(*ssa.Function)
+	return ok && !inModule(f)
 }
 
 // onlyCalled: a func-typed parameter whose only uses are direct calls (and debug refs).
@@ -263,7 +400,7 @@ func (m *ModSets) paramCallees(call *ssa.CallCommon) []*ssa.Function {
 			}
 			switch a := call.Args[i].(type) {
 			case *ssa.MakeClosure:
-				out = append(out, a.Fn.(*ssa.Function))
+				out = append(out, unwrapMethodValue(a.Fn.(*ssa.Function)))
 			case *ssa.Function:
 				if inModule(a) && len(a.Blocks) > 0 {
 					out = append(out, a)
@@ -411,7 +548,7 @@ func (m *ModSets) compute() {
 		for _, b := range fn.Blocks {
 			for _, in := range b.Instrs {
 				if mc, ok := in.(*ssa.MakeClosure); ok {
-					f := mc.Fn.(*ssa.Function)
+					f := unwrapMethodValue(mc.Fn.(*ssa.Function))
 					k := sigKey(f.Signature)
 					m.addrTaken[k] = append(m.addrTaken[k], f)
 					continue
@@ -484,7 +621,7 @@ func (m *ModSets) compute() {
 						// library code may call back closures passed to it
 						for _, a := range call.Args {
 							if mc, ok := a.(*ssa.MakeClosure); ok {
-								cs = append(cs, mc.Fn.(*ssa.Function))
+								cs = append(cs, unwrapMethodValue(mc.Fn.(*ssa.Function)))
 							}
 							if f, ok := a.(*ssa.Function); ok && inModule(f) {
 								cs = append(cs, f)
@@ -658,7 +795,7 @@ func (m *ModSets) callMods(fn *ssa.Function, call *ssa.CallCommon) []string {
 	if lib && !nonCallbackPkgs[calleePkgPath(call)] {
 		for _, a := range call.Args {
 			if mc, ok := a.(*ssa.MakeClosure); ok {
-				out = append(out, m.modsVisible(mc.Fn.(*ssa.Function), fn)...)
+				out = append(out, m.modsVisible(unwrapMethodValue(mc.Fn.(*ssa.Function)), fn)...)
 			}
 			if f, ok := a.(*ssa.Function); ok && inModule(f) {
 				out = append(out, m.modsVisible(f, fn)...)
@@ -808,4 +945,17 @@ func libMayFill(call *ssa.CallCommon, t types.Type) bool {
 		}
 	}
 	return false
+}
+
+// unwrapMethodValue: a method value (c.m handed on as a function) is a closure over a synthetic wrapper
+// ("(*T).m$bound"); its effects are those of the method it wraps.
+func unwrapMethodValue(f *ssa.Function) *ssa.Function {
+	if f != nil && f.Synthetic != "" && (strings.HasSuffix(f.Name(), "$bound") || strings.HasSuffix(f.Name(), "$thunk")) {
+		if obj, ok := f.Object().(*types.Func); ok && f.Prog != nil {
+			if m := f.Prog.FuncValue(obj); m != nil && len(m.Blocks) > 0 {
+				return m
+			}
+		}
+	}
+	return f
 }
